@@ -114,6 +114,14 @@ func genC09(t *rapid.T) Case {
 		at := rapid.IntRange(0, len(ops)).Draw(t, "otAt")
 		ops = append(ops[:at:at], append(sc, ops[at:]...)...)
 	}
+	// the collector runs while somebody has files open that are still being written (op files with a length
+	// of 4q+1 runs it between the last Write and the first Close), with garbage to collect in the same directory
+	if rapid.IntRange(0, 2).Draw(t, "filesOpen") == 0 {
+		k := rapid.IntRange(0, 1).Draw(t, "foKey")
+		frag := []Op{{K: "set", Key: k, Len: 3}, {K: "set", Key: k, Len: 4}, {K: "files", N: rapid.IntRange(2, 3).Draw(t, "foN"), Len: 4*rapid.IntRange(0, 500).Draw(t, "foLen") + 1}}
+		at := rapid.IntRange(0, len(ops)).Draw(t, "foAt")
+		ops = append(ops[:at:at], append(frag, ops[at:]...)...)
+	}
 	if dense { // the collector after every step (and before the first)
 		c.Ops = append(c.Ops, Op{K: "gc"})
 		for _, op := range ops {
